@@ -204,6 +204,28 @@ def s_chr(x):
     return _b.chr(x)
 
 
+def s_range(*a):
+    """range() whose bounds may be symbolic as long as the *count* is concrete (or small)"""
+    if not _any_sym(a):
+        return _b.range(*a)
+    if _b.len(a) == 1:
+        start, stop, step = 0, a[0], 1
+    elif _b.len(a) == 2:
+        start, stop, step = a[0], a[1], 1
+    else:
+        start, stop, step = a
+    if _is_sym(step) or step != 1:
+        raise Unsupported("symbolic range with step")
+    n = stop - start
+    if _b.isinstance(n, SymInt):
+        if n.lo < 0:
+            if ctx().decide(n.t <= 0):
+                return []
+            n = SymInt(n.t, 1, n.hi)
+        n = n.concretize(limit=4096)
+    return [start + i for i in _b.range(_b.max(n, 0))]
+
+
 def s_sum(xs, start=0):
     r = start
     for x in xs:
@@ -268,6 +290,6 @@ def install_post(mod):
             d[nm] = getattr(sm, nm)
     for nm, f in (("len", s_len), ("int", s_int), ("isinstance", s_isinstance), ("max", s_max),
                   ("min", s_min), ("bytes", s_bytes), ("bytearray", s_bytearray), ("str", s_str),
-                  ("bool", s_bool), ("hex", s_hex), ("ord", s_ord), ("chr", s_chr), ("sum", s_sum)):
+                  ("bool", s_bool), ("hex", s_hex), ("ord", s_ord), ("chr", s_chr), ("sum", s_sum), ("range", s_range)):
         if nm not in d:
             d[nm] = f
